@@ -6,9 +6,9 @@ import RvModel.Lemmas.C08
   C08 (part C): KL divergence, and the functional identity `cdf (median) = ½` for the closed-form CDFs.
 
   * `kl_sym p q = kl p q + kl q p` (trait default) for the five implementors — definitional.
-  * Gaussian, Poisson: `kl = textbook`, `0 ≤ kl`, `kl p q = 0 ↔ p = q` (from `log x ≤ x − 1`, strict for x ≠ 1).
-  * Exponential, Bernoulli: the code is WRONG (`_counterexample`: the value is negative at a concrete pair);
-    the textbook Spec is shown non-negative, the Bernoulli code is shown to be exactly `−KL`.
+  * all inequalities come from `log x ≤ x − 1`, strict for x ≠ 1.
+  * Gaussian, Poisson, Exponential, Bernoulli (0 < p < 1): `kl = textbook`, `0 ≤ kl`, `kl p q = 0 ↔ p = q`
+    (Exponential and Bernoulli after the repairs `fix: Exponential KL …` / `fix: Bernoulli KL …` of the crate).
   * Categorical: `kl = textbook` (list fold = Σ); non-negativity is `_partial` (only `kl p p = 0` is proved —
     Gibbs' inequality over lists needs the normalisation Σ wᵢ = 1 of both arguments and is not done).
   * median: `cdf (median d) = ½` through the *generated* cdf for Exponential, Cauchy, Laplace, Uniform,
@@ -170,38 +170,51 @@ theorem Poisson_kl_eq_zero_iff (p q : Gen.Poisson R) (hp : 0 < p.rate.val) (hq :
     rw [h]; ring
 example : 0 < (⟨⟨3⟩⟩ : Gen.Poisson R).rate.val := by norm_num
 
-/-! ## Exponential: the code is wrong -/
+/-! ## Exponential -/
 
-/-- FULL STATEMENT (false): ∀ valid p q, Gen.Exponential.kl p q = Spec.Exponential.kl p q, and 0 ≤ Gen.Exponential.kl p q.
-    `dist/exponential.rs` has the ratio upside down: ln λ₁ − ln λ₂ + λ₁/λ₂ − 1 instead of … + λ₂/λ₁ − 1.
-    At λ₁ = 1, λ₂ = 2 the code returns −ln 2 − ½ < 0; the divergence is 1 − ln 2 > 0. -/
 -- @site Exponential.kl
-theorem Exponential_kl_counterexample :
-    (Gen.Exponential.kl (⟨⟨1⟩⟩ : Gen.Exponential R) ⟨⟨2⟩⟩).val ≠ (Spec.Exponential.kl (⟨⟨1⟩⟩ : Gen.Exponential R) ⟨⟨2⟩⟩).val
-    ∧ (Gen.Exponential.kl (⟨⟨1⟩⟩ : Gen.Exponential R) ⟨⟨2⟩⟩).val < 0 := by
+theorem Exponential_kl (p q : Gen.Exponential R) (hp : 0 < p.rate.val) (hq : 0 < q.rate.val) :
+    (Gen.Exponential.kl p q).val = (Spec.Exponential.kl p q).val := by
   simp only [Gen.Exponential.kl, Spec.Exponential.kl]
-  c08_norm
-  norm_num1
-  have h2 := Real.log_pos (show (1:ℝ) < 2 by norm_num)
-  rw [Real.log_one]
-  constructor
-  · intro h; linarith
-  · linarith
+  c08_close
+example : 0 < (⟨⟨2⟩⟩ : Gen.Exponential R).rate.val := by norm_num
 
-/-- the textbook value is non-negative and vanishes only for equal rates -/
 -- @site Exponential.kl
-theorem Exponential_kl_spec_nonneg (p q : Gen.Exponential R) (hp : 0 < p.rate.val) (hq : 0 < q.rate.val) :
-    0 ≤ (Spec.Exponential.kl p q).val := by
-  simp only [Spec.Exponential.kl]
+theorem Exponential_kl_nonneg (p q : Gen.Exponential R) (hp : 0 < p.rate.val) (hq : 0 < q.rate.val) :
+    0 ≤ (Gen.Exponential.kl p q).val := by
+  simp only [Gen.Exponential.kl]
   c08_norm
-  norm_num1
+  simp only [C08L.lit10]
   have hx : 0 < q.rate.val / p.rate.val := by positivity
   have hlog := Real.log_le_sub_one_of_pos hx
   rw [Real.log_div hq.ne' hp.ne'] at hlog
   linarith
 example : 0 < (⟨⟨2⟩⟩ : Gen.Exponential R).rate.val := by norm_num
 
-/-- the symmetrised value happens to be right: r + 1/r − 2 is invariant under r ↦ 1/r -/
+-- @site Exponential.kl
+theorem Exponential_kl_eq_zero_iff (p q : Gen.Exponential R) (hp : 0 < p.rate.val) (hq : 0 < q.rate.val) :
+    (Gen.Exponential.kl p q).val = 0 ↔ p = q := by
+  have hpq : p = q ↔ p.rate.val = q.rate.val := by
+    constructor
+    · rintro rfl; rfl
+    · intro h; cases p; cases q; simp only [Gen.Exponential.mk.injEq]; exact R.ext' h
+  rw [hpq]
+  simp only [Gen.Exponential.kl]
+  c08_norm
+  simp only [C08L.lit10]
+  have hx : 0 < q.rate.val / p.rate.val := by positivity
+  constructor
+  · intro h
+    by_contra hne
+    have hx1 : q.rate.val / p.rate.val ≠ 1 := by
+      intro h1; rw [div_eq_one_iff_eq hp.ne'] at h1; exact hne h1.symm
+    have hlog := Real.log_lt_sub_one_of_pos hx hx1
+    rw [Real.log_div hq.ne' hp.ne'] at hlog
+    linarith
+  · intro h
+    rw [h, div_self hq.ne']; ring
+example : 0 < (⟨⟨2⟩⟩ : Gen.Exponential R).rate.val := by norm_num
+
 -- @site Exponential.kl_sym
 theorem Exponential_kl_sym_spec (p q : Gen.Exponential R) (hp : 0 < p.rate.val) (hq : 0 < q.rate.val) :
     (Gen.Exponential.kl_sym p q).val = (Spec.Exponential.kl p q).val + (Spec.Exponential.kl q p).val := by
@@ -209,13 +222,12 @@ theorem Exponential_kl_sym_spec (p q : Gen.Exponential R) (hp : 0 < p.rate.val) 
   c08_close
 example : 0 < (⟨⟨2⟩⟩ : Gen.Exponential R).rate.val := by norm_num
 
-/-! ## Bernoulli: the code is wrong -/
+/-! ## Bernoulli (0 < p < 1; at p ∈ {0,1} the binary64 code returns NaN — 0·ln 0 — which `R` cannot express) -/
 
-/-- the code computes p(ln p' − ln p) + q(ln q' − ln q) = −KL(p‖p') -/
 -- @site Bernoulli.kl
-theorem Bernoulli_kl_eq_neg_spec (p q : Gen.Bernoulli R) (hp0 : 0 < p.p.val) (hp1 : p.p.val < 1)
+theorem Bernoulli_kl (p q : Gen.Bernoulli R) (hp0 : 0 < p.p.val) (hp1 : p.p.val < 1)
     (hq0 : 0 < q.p.val) (hq1 : q.p.val < 1) :
-    (Gen.Bernoulli.kl p q).val = -(Spec.Bernoulli.kl p q).val := by
+    (Gen.Bernoulli.kl p q).val = (Spec.Bernoulli.kl p q).val := by
   have h1 : ¬ ((1:ℝ) - p.p.val = 0) := by intro h; linarith
   have h0 : ¬ (p.p.val = 0) := hp0.ne'
   simp only [Gen.Bernoulli.kl, Spec.Bernoulli.kl, Gen.Bernoulli.q, Spec.xlnxy]
@@ -223,19 +235,13 @@ theorem Bernoulli_kl_eq_neg_spec (p q : Gen.Bernoulli R) (hp0 : 0 < p.p.val) (hp
   simp only [C08L.lit00, C08L.lit10, if_neg h0, if_neg h1]
   c08_norm
   simp only [C08L.lit10]
-  ring
 example : 0 < (⟨⟨1/3⟩⟩ : Gen.Bernoulli R).p.val ∧ (⟨⟨1/3⟩⟩ : Gen.Bernoulli R).p.val < 1 := by norm_num
 
-/-- the textbook value is non-negative -/
 -- @site Bernoulli.kl
-theorem Bernoulli_kl_spec_nonneg (p q : Gen.Bernoulli R) (hp0 : 0 < p.p.val) (hp1 : p.p.val < 1)
+theorem Bernoulli_kl_nonneg (p q : Gen.Bernoulli R) (hp0 : 0 < p.p.val) (hp1 : p.p.val < 1)
     (hq0 : 0 < q.p.val) (hq1 : q.p.val < 1) :
-    0 ≤ (Spec.Bernoulli.kl p q).val := by
-  have h1 : ¬ ((1:ℝ) - p.p.val = 0) := by intro h; linarith
-  have h0 : ¬ (p.p.val = 0) := hp0.ne'
-  simp only [Spec.Bernoulli.kl, Spec.xlnxy]
-  c08_norm
-  simp only [C08L.lit00, C08L.lit10, if_neg h0, if_neg h1]
+    0 ≤ (Gen.Bernoulli.kl p q).val := by
+  simp only [Gen.Bernoulli.kl, Gen.Bernoulli.q]
   c08_norm
   simp only [C08L.lit10]
   have hp' : 0 < 1 - p.p.val := by linarith
@@ -253,42 +259,39 @@ theorem Bernoulli_kl_spec_nonneg (p q : Gen.Bernoulli R) (hp0 : 0 < p.p.val) (hp
   nlinarith
 example : 0 < (⟨⟨1/3⟩⟩ : Gen.Bernoulli R).p.val ∧ (⟨⟨1/3⟩⟩ : Gen.Bernoulli R).p.val < 1 := by norm_num
 
-/-- hence the code's `kl` is never positive -/
 -- @site Bernoulli.kl
-theorem Bernoulli_kl_nonpos (p q : Gen.Bernoulli R) (hp0 : 0 < p.p.val) (hp1 : p.p.val < 1)
+theorem Bernoulli_kl_eq_zero_iff (p q : Gen.Bernoulli R) (hp0 : 0 < p.p.val) (hp1 : p.p.val < 1)
     (hq0 : 0 < q.p.val) (hq1 : q.p.val < 1) :
-    (Gen.Bernoulli.kl p q).val ≤ 0 := by
-  rw [Bernoulli_kl_eq_neg_spec p q hp0 hp1 hq0 hq1]
-  have := Bernoulli_kl_spec_nonneg p q hp0 hp1 hq0 hq1
-  linarith
+    (Gen.Bernoulli.kl p q).val = 0 ↔ p = q := by
+  have hpq : p = q ↔ p.p.val = q.p.val := by
+    constructor
+    · rintro rfl; rfl
+    · intro h; cases p; cases q; simp only [Gen.Bernoulli.mk.injEq]; exact R.ext' h
+  rw [hpq]
+  simp only [Gen.Bernoulli.kl, Gen.Bernoulli.q]
+  c08_norm
+  simp only [C08L.lit10]
+  have hp' : 0 < 1 - p.p.val := by linarith
+  have hq' : 0 < 1 - q.p.val := by linarith
+  have a2 := Real.log_le_sub_one_of_pos (show 0 < (1 - q.p.val) / (1 - p.p.val) by positivity)
+  rw [Real.log_div hq'.ne' hp'.ne'] at a2
+  have b2 := mul_le_mul_of_nonneg_left a2 hp'.le
+  have e1 : p.p.val * (q.p.val / p.p.val - 1) = q.p.val - p.p.val := by field_simp
+  have e2 : (1 - p.p.val) * ((1 - q.p.val) / (1 - p.p.val) - 1) = (1 - q.p.val) - (1 - p.p.val) := by field_simp
+  rw [e2] at b2
+  constructor
+  · intro h
+    by_contra hne
+    have hx1 : q.p.val / p.p.val ≠ 1 := by
+      intro h1; rw [div_eq_one_iff_eq hp0.ne'] at h1; exact hne h1.symm
+    have a1 := Real.log_lt_sub_one_of_pos (show 0 < q.p.val / p.p.val by positivity) hx1
+    rw [Real.log_div hq0.ne' hp0.ne'] at a1
+    have b1 := mul_lt_mul_of_pos_left a1 hp0
+    rw [e1] at b1
+    nlinarith
+  · intro h
+    rw [h]; ring
 example : 0 < (⟨⟨1/3⟩⟩ : Gen.Bernoulli R).p.val ∧ (⟨⟨1/3⟩⟩ : Gen.Bernoulli R).p.val < 1 := by norm_num
-
-/-- FULL STATEMENT (false): ∀ valid p q, Gen.Bernoulli.kl p q = Spec.Bernoulli.kl p q and 0 ≤ Gen.Bernoulli.kl p q.
-    At p = ½, p' = ¼ the code returns ½ ln(¾) < 0. -/
--- @site Bernoulli.kl
-theorem Bernoulli_kl_counterexample :
-    (Gen.Bernoulli.kl (⟨⟨1/2⟩⟩ : Gen.Bernoulli R) ⟨⟨1/4⟩⟩).val ≠ (Spec.Bernoulli.kl (⟨⟨1/2⟩⟩ : Gen.Bernoulli R) ⟨⟨1/4⟩⟩).val
-    ∧ (Gen.Bernoulli.kl (⟨⟨1/2⟩⟩ : Gen.Bernoulli R) ⟨⟨1/4⟩⟩).val < 0 := by
-  have hneg : (Gen.Bernoulli.kl (⟨⟨1/2⟩⟩ : Gen.Bernoulli R) ⟨⟨1/4⟩⟩).val < 0 := by
-    simp only [Gen.Bernoulli.kl, Gen.Bernoulli.q]
-    c08_norm
-    norm_num1
-    have e1 : Real.log (1 / 4) = -(2 * Real.log 2) := by
-      rw [show (1:ℝ) / 4 = (2 ^ 2)⁻¹ by norm_num, Real.log_inv, Real.log_pow]; push_cast; ring
-    have e2 : Real.log (1 / 2) = -Real.log 2 := by rw [one_div, Real.log_inv]
-    have e3 : Real.log (3 / 4) = Real.log 3 - 2 * Real.log 2 := by
-      rw [Real.log_div (by norm_num) (by norm_num), show (4:ℝ) = 2 ^ 2 by norm_num, Real.log_pow]; push_cast; ring
-    have h34 : Real.log 3 < 2 * Real.log 2 := by
-      have : Real.log 3 < Real.log 4 := Real.log_lt_log (by norm_num) (by norm_num)
-      rw [show (4:ℝ) = 2 ^ 2 by norm_num, Real.log_pow] at this
-      push_cast at this; linarith
-    rw [e1, e2, e3]
-    linarith
-  refine ⟨?_, hneg⟩
-  intro h
-  have hs := Bernoulli_kl_spec_nonneg (⟨⟨1/2⟩⟩ : Gen.Bernoulli R) ⟨⟨1/4⟩⟩ (by norm_num) (by norm_num) (by norm_num) (by norm_num)
-  rw [← h] at hs
-  linarith
 
 /-! ## Categorical -/
 
@@ -493,13 +496,13 @@ end C08
 #print axioms C08.Poisson_kl
 #print axioms C08.Poisson_kl_nonneg
 #print axioms C08.Poisson_kl_eq_zero_iff
-#print axioms C08.Exponential_kl_counterexample
-#print axioms C08.Exponential_kl_spec_nonneg
+#print axioms C08.Exponential_kl
+#print axioms C08.Exponential_kl_nonneg
+#print axioms C08.Exponential_kl_eq_zero_iff
 #print axioms C08.Exponential_kl_sym_spec
-#print axioms C08.Bernoulli_kl_eq_neg_spec
-#print axioms C08.Bernoulli_kl_spec_nonneg
-#print axioms C08.Bernoulli_kl_nonpos
-#print axioms C08.Bernoulli_kl_counterexample
+#print axioms C08.Bernoulli_kl
+#print axioms C08.Bernoulli_kl_nonneg
+#print axioms C08.Bernoulli_kl_eq_zero_iff
 #print axioms C08.Categorical_kl
 #print axioms C08.Categorical_kl_self_partial
 #print axioms C08.Exponential_cdf_median
